@@ -1,22 +1,22 @@
-(* Correspondence cases for C04.  History cases as in Run/C03.v (the same
-   machine; the generator concentrates on output keys).  A filter case carries
-   the output key lists of a transaction given to the real validateOutputs with
-   a recording locker: Ok = the key list the locker received, Err = rejected
-   before the locker was called. *)
+(* Correspondence cases for C04.  History and concurrent cases as in
+   Run/C03.v (the same machine; the generator concentrates on output keys).
+   A filter case carries the output key lists of a transaction given to the
+   real validateOutputs with a recording locker: Ok = the key list the locker
+   received, Err = rejected before the locker was called. *)
 From Coq Require Import List ZArith NArith Bool.
-Require Import Mixin.Base.Res Mixin.Model.GhostKeys Mixin.Model.Locks Mixin.Model.LocksCheck.
+Require Export Mixin.Base.Res Mixin.Model.GhostKeys Mixin.Model.Locks Mixin.Model.LocksCheck.
 Import ListNotations.
 Open Scope N_scope.
 
 Inductive case :=
-| CHist (tbl : list N) (ops : (nat -> N) -> list op) (obs : (nat -> N) -> list (res unit * dump))
-| CConc (tbl : list N) (pre : (nat -> N) -> list op) (obs : (nat -> N) -> list (res unit * dump))
-        (batch : (nat -> N) -> list op) (rs : list (res unit)) (final : (nat -> N) -> dump)
-| CVo (tbl : list N) (outs : (nat -> N) -> list (list N)) (obs : (nat -> N) -> res (list N)).
+| CHist (ops : list op) (obs : list (res unit * delta)) (final : dump)
+| CConc (pre : list op) (obs : list (res unit * delta))
+        (batch : list op) (rs : list (res unit)) (final : dump)
+| CVo (outs : list (list N)) (obs : res (list N)).
 
 Definition check (c : case) : bool :=
   match c with
-  | CHist tbl ops obs => check_hist tbl ops obs
-  | CConc tbl pre obs batch rs final => check_conc tbl pre obs batch rs final
-  | CVo tbl outs obs => res_eqb bytes_eqb (vo_keys (outs (lookup tbl))) (obs (lookup tbl))
+  | CHist ops obs final => check_hist ops obs final
+  | CConc pre obs batch rs final => check_conc pre obs batch rs final
+  | CVo outs obs => res_eqb bytes_eqb (vo_keys outs) obs
   end.
